@@ -12,7 +12,20 @@ import (
 	"sort"
 )
 
-// StrListEncoder encodes string slice. Max bytes size for each string is 65536 bytes
+// MaxStrLen is the max bytes size for each string in a string slice (length is encoded in 2 bytes)
+const MaxStrLen = 65535
+
+// ValidateStrList returns an error if any string is too long to be encoded
+func ValidateStrList(sl []string) error {
+	for i, s := range sl {
+		if len(s) > MaxStrLen {
+			return fmt.Errorf("value at position %d %q is too long (%d > %d bytes)", i, s[:40]+"...", len(s), MaxStrLen)
+		}
+	}
+	return nil
+}
+
+// StrListEncoder encodes string slice. Max bytes size for each string is 65535 bytes
 type StrListEncoder struct {
 	buf          []byte
 	reuseRecords bool
@@ -41,8 +54,8 @@ func (e *StrListEncoder) Encode(sl []string) []byte {
 	binary.BigEndian.PutUint32(e.buf, uint32(len(sl)))
 	offset := 4
 	for _, s := range sl {
-		if len(s) > 65536 {
-			panic(fmt.Errorf("cell value %q is too long (%d > 65536)", s[:40]+"...", len(s)))
+		if len(s) > MaxStrLen {
+			panic(fmt.Errorf("cell value %q is too long (%d > %d)", s[:40]+"...", len(s), MaxStrLen))
 		}
 		l := uint16(len(s))
 		binary.BigEndian.PutUint16(e.buf[offset:], l)
